@@ -279,3 +279,45 @@ pub fn drive(e: &mut Emu, s: Slice, rng: &mut crate::prng::Rng) -> Result<usize,
         }
     }
 }
+
+/// Calls the ROM tape block routine LD-BYTES (0x0556) the way `CALL 0x0556` from RAM would:
+/// A = expected flag byte, carry = LOAD (set) / VERIFY (clear), IX = destination, DE = length;
+/// `ret` is pushed on the stack at `sp`. Runs until the routine returns to `ret` (true) or
+/// `max_frames` have passed (false). The 48K BASIC ROM must be paged in.
+pub fn call_ld_bytes(e: &mut Emu, a: u8, carry: bool, ix: u16, de: u16, sp: u16, ret: u16, max_frames: usize) -> Result<bool, String> {
+    let mut st = cpu_state(e);
+    st.af = (a as u16) << 8 | (st.af & 0x00FE) | carry as u16;
+    st.ix = ix;
+    st.de = de;
+    st.pc = 0x0556;
+    st.sp = sp.wrapping_sub(2);
+    st.halted = false;
+    st.no_sample = false;
+    st.to_impl(e.verif_cpu());
+    write_mem(e, sp.wrapping_sub(2), &ret.to_le_bytes());
+    run_until_pc(e, ret, max_frames)
+}
+
+/// Runs (FrameCount(1) calls) until a breakpoint at `pc` is hit; false if `max_frames` passed first.
+pub fn run_until_pc(e: &mut Emu, pc: u16, max_frames: usize) -> Result<bool, String> {
+    set_break_mode(e, BreakMode::Set(vec![pc]));
+    e.set_speed(EmulationMode::FrameCount(1));
+    let mut frames = 0;
+    let r = loop {
+        match e.emulate_frames(LONG) {
+            Ok(i) => match i.stop_reason {
+                EmulationStopReason::Breakpoint => break Ok(true),
+                EmulationStopReason::Completed => {
+                    frames += 1;
+                    if frames >= max_frames {
+                        break Ok(false);
+                    }
+                }
+                EmulationStopReason::Timeout => break Err("unexpected timeout".to_string()),
+            },
+            Err(x) => break Err(format!("emulate_frames: {:?}", x)),
+        }
+    };
+    set_break_mode(e, BreakMode::Never);
+    r
+}
